@@ -200,12 +200,39 @@ def run_property(prop, rules, level, explanation, trusted_base=None, argv=None, 
         except Exception as e:  # noqa
             print(f"ANALYSIS-ERROR property={prop} cannot read replay {args.replay}: {e}")
             return 2
+    # watchdog: a rule that does not terminate (a defect of the checker, e.g. a fixed-point loop that never converges on an unusual tree) must
+    # not hang the registered command - after VERIF_BUDGET_S seconds (default 900) the run ends as "not decided" (exit 2)
+    import signal
+
+    class AnalysisTimeout(BaseException):
+        pass
+
+    def _alarm(signum, frame):
+        raise AnalysisTimeout()
+
+    try:
+        budget = float(os.environ.get("VERIF_BUDGET_S", "900"))
+    except ValueError:
+        budget = 900.0
+    armed = False
+    try:
+        signal.signal(signal.SIGALRM, _alarm)
+        signal.setitimer(signal.ITIMER_REAL, budget, 20.0)      # re-fires every 20 s should a broad handler swallow the first one
+        armed = True
+    except Exception:  # noqa  (no SIGALRM on this platform / not the main thread)
+        pass
     try:
         ctx = run_rules(prop, rules, tier, seed, args.repo, only)
+    except AnalysisTimeout:
+        print(f"ANALYSIS-ERROR property={prop} the analysis did not finish within {budget:.0f} s (VERIF_BUDGET_S)")
+        return 2
     except Exception:  # noqa
         print(f"ANALYSIS-ERROR property={prop} harness failure")
         traceback.print_exc()
         return 2
+    finally:
+        if armed:
+            signal.setitimer(signal.ITIMER_REAL, 0)
     st_info = None
     if tier == "thorough" and thorough is not None and not only:
         try:
